@@ -88,11 +88,23 @@ class HelicityAdapter:
 
     def create_expressions(self) -> dict[sp.Symbol, sp.Expr]:
         output = {}
-        for topology in self.__topologies:
+        for topology in sorted(self.__topologies, key=_get_topology_sorting_key):
             momenta = create_four_momentum_symbols(topology)
             output.update(compute_helicity_angles(momenta, topology))
             output.update(compute_invariant_masses(momenta, topology))
         return output
+
+
+def _get_topology_sorting_key(topology: Topology) -> list[tuple[int, int, int]]:
+    """Key for iterating over topologies in the same order in every process."""
+    return sorted(
+        (
+            edge_id,
+            -1 if edge.originating_node_id is None else edge.originating_node_id,
+            -1 if edge.ending_node_id is None else edge.ending_node_id,
+        )
+        for edge_id, edge in topology.edges.items()
+    )
 
 
 @singledispatch
